@@ -46,14 +46,22 @@ Param Hist::genParam(const std::string& name, std::string* descr) {
     if (nd == 0) prod = (size_t)(rng.chance(50) ? 1 : rng.range(0, 5));
     bool explicitDims = nd > 0;
     std::ostringstream d; d << "type=" << (type == 0 ? "int" : type == 1 ? "float" : "string") << " dims=" << (explicitDims ? dimsToStr(dims) : std::string("implicit")) << " n=" << prod << " desc=" << dl;
+    // what C09 says a look-up returns afterwards: "the given type, dimensions, values" -- recorded from the INPUTS, not read back from p
+    int expType = type == 0 ? (int)ezc3d::INT : type == 1 ? (int)ezc3d::FLOAT : (int)ezc3d::CHAR; std::vector<size_t> expDims; std::vector<int> expI; std::vector<uint32_t> expF; std::vector<std::string> expS; bool expFloatBits = true, expKnown = true;
     try {
     if (type == 0) { std::vector<int> v; for (size_t i = 0; i < prod; ++i) v.push_back(rng.chance(15) ? (rng.chance(50) ? 32767 : -32768) : rng.range(-3000, 3000));
-        if (explicitDims) p.set(v, dims); else if (prod == 1 && rng.chance(50)) { if (v[0] >= 0 && rng.chance(40)) { static const size_t big[] = {0, 1, 255, 32767, 32768, 65535, 65536, 100000}; size_t sv = rng.chance(50) ? static_cast<size_t>(v[0]) : big[rng.below(8)]; if (sv > 32767) beyondInt16 = true; p.set(sv); { const std::vector<int>& got = p.valuesAsInt(); if (got.size() != 1 || got[0] != static_cast<int>(sv)) log.viol("C09", "set/size_t_value", "set(size_t " + std::to_string((unsigned long long)sv) + ") stores " + (got.empty() ? std::string("nothing") : std::to_string(got[0]))); } } else p.set(v[0]); } else p.set(v); }
+        if (explicitDims) p.set(v, dims); else if (prod == 1 && rng.chance(50)) { if (v[0] >= 0 && rng.chance(40)) { static const size_t big[] = {0, 1, 255, 32767, 32768, 65535, 65536, 100000}; size_t sv = rng.chance(50) ? static_cast<size_t>(v[0]) : big[rng.below(8)]; if (sv > 32767) beyondInt16 = true; p.set(sv); v[0] = static_cast<int>(sv); { const std::vector<int>& got = p.valuesAsInt(); if (got.size() != 1 || got[0] != static_cast<int>(sv)) log.viol("C09", "set/size_t_value", "set(size_t " + std::to_string((unsigned long long)sv) + ") stores " + (got.empty() ? std::string("nothing") : std::to_string(got[0]))); } } else p.set(v[0]); } else p.set(v); expI = v; }
     else if (type == 1) { std::vector<float> v; for (size_t i = 0; i < prod; ++i) v.push_back(bitsf(genFloatBits(rng, specialFloats)));
-        if (explicitDims) p.set(v, dims); else if (prod == 1 && rng.chance(50)) { if (rng.chance(40)) p.set(static_cast<double>(v[0])); else p.set(v[0]); } else p.set(v); }
-    else { std::vector<std::string> v; bool wide = rng.chance(12); for (size_t i = 0; i < prod; ++i) { int l = rng.chance(15) ? 0 : rng.range(1, 12); if (wide && (i == 0 || rng.chance(10))) l = rng.range(120, 255); /* very uneven widths: long padding runs */ std::string s; for (int k = 0; k < l; ++k) s += (char)("ABCdef ghi_12"[rng.below(13)]); while (!s.empty() && s[s.size() - 1] == ' ') s[s.size() - 1] = 'z'; if (!s.empty() && rng.chance(6)) s[s.size() - 1] = "\t\n\r\v\f"[rng.below(5)]; /* a cell may END in white space other than a blank: only blanks are padding */ v.push_back(s); }
-        if (explicitDims) p.set(v, dims); else if (prod == 1 && rng.chance(50)) p.set(v[0]); else p.set(v); }
-    } catch (const std::exception& e) { Outcome oc = classify(e); log.viol("C09", "set/consistent_refused/" + oc.cls, "while building a parameter: " + d.str() + ": " + oc.what); p.set(1); }
+        if (explicitDims) p.set(v, dims); else if (prod == 1 && rng.chance(50)) { expFloatBits = false; /* by-value float/double overloads: NaN payloads need not survive the call */ if (rng.chance(40)) p.set(static_cast<double>(v[0])); else p.set(v[0]); } else p.set(v); for (size_t i = 0; i < v.size(); ++i) expF.push_back(fbits(v[i])); }
+    else { std::vector<std::string> v; bool wide = rng.chance(12); for (size_t i = 0; i < prod; ++i) { int l = rng.chance(15) ? 0 : rng.range(1, 12); if (wide && (i == 0 || rng.chance(10))) l = rng.range(120, 255); /* very uneven widths: long padding runs */ std::string s; for (int k = 0; k < l; ++k) s += (char)("ABCdef ghi_12"[rng.below(13)]); bool endBlank = rng.chance(8); /* a given value may END in blanks: stored as given (C09); a file cannot tell them from padding, so the round-trip comparison trims */ while (!endBlank && !s.empty() && s[s.size() - 1] == ' ') s[s.size() - 1] = 'z'; if (endBlank && !s.empty() && s.size() <= 250) s += std::string((size_t)rng.range(1, 3), ' '); if (!s.empty() && rng.chance(6)) s[s.size() - 1] = "\t\n\r\v\f"[rng.below(5)]; /* a cell may END in white space other than a blank: only blanks are padding */ v.push_back(s); }
+        if (explicitDims) p.set(v, dims); else if (prod == 1 && rng.chance(50)) p.set(v[0]); else p.set(v); expS = v; }
+    expDims = explicitDims ? dims : std::vector<size_t>(1, prod);
+    if (type == 2) { size_t longest = 0; for (size_t i = 0; i < expS.size(); ++i) longest = std::max(longest, expS[i].size()); expDims.insert(expDims.begin(), longest); }
+    } catch (const std::exception& e) { Outcome oc = classify(e); log.viol("C09", "set/consistent_refused/" + oc.cls, "while building a parameter: " + d.str() + ": " + oc.what); p.set(1); expKnown = false; }
+    if (expKnown) { SParam st = takeParam(p); bump("c09_set_result_vs_inputs");
+        bool fok = st.fv.size() == expF.size(); for (size_t i = 0; fok && i < expF.size(); ++i) if (st.fv[i] != expF[i] && (expFloatBits || !((expF[i] & 0x7f800000u) == 0x7f800000u && (expF[i] & 0x007fffffu)))) fok = false;
+        if (st.type != expType || st.dims != expDims || st.iv != expI || !fok || st.sv != expS)
+            log.viol("C09", std::string("set/stored_differs_from_given/") + (type == 0 ? "int" : type == 1 ? "float" : "string") + (st.type != expType ? "/type" : st.dims != expDims ? "/dims" : "/values"), "after set(" + d.str() + ") the parameter holds dims " + dimsToStr(st.dims) + (st.sv.empty() ? std::string() : " first string '" + esc(st.sv[0]) + "'")); }
     if (rng.chance(25)) p.lock();
     if (descr) *descr = d.str();
     return p;
